@@ -35,9 +35,23 @@ let () =
     | None -> Printf.printf "CASE %d trivial-badcase\n" k
     | Some bar ->
       let cfgw = words (String.sub line 0 bar) in
-      let nsrv = match field cfgw "servers" with Some n -> int_of_string n | None -> 1 in
+      let nsrv0 = match field cfgw "servers" with Some n -> int_of_string n | None -> 1 in
       let rot = field cfgw "rotate" = Some "1" in
-      let initial = List.init nsrv (fun i -> i + 1) in
+      (* "nameserver 10.0.0.k" lines of a written resolv.conf (hex) *)
+      let nameservers hex =
+        let n = String.length hex / 2 in
+        let txt = String.init n (fun i -> Char.chr (int_of_string ("0x" ^ String.sub hex (2 * i) 2))) in
+        List.filter_map (fun l -> match words l with ["nameserver"; a] -> addr_id a | _ -> None) (split_on '\n' txt) in
+      let last_written = ref [] in
+      let initial =
+        if nsrv0 = 0 then
+          (match field cfgw "writefile" with
+           | Some v -> (match String.rindex_opt v ':' with
+               | Some i -> let l = nameservers (String.sub v (i + 1) (String.length v - i - 1)) in last_written := l; l
+               | None -> [])
+           | None -> [])
+        else List.init nsrv0 (fun i -> i + 1) in
+      let nsrv = List.length (List.sort_uniq compare initial) in
       (* simulator's srv index -> address id: configuration order, then new addresses in order of appearance *)
       let srvtab = ref (List.mapi (fun i a -> (i, a)) initial) in
       let mon = ref (Some (mon_init (List.map zi initial) rot)) in
@@ -85,6 +99,14 @@ let () =
              let ids = if csv = "-" then [] else List.filter_map addr_id (split_on ',' csv) in
              List.iter (fun a -> if not (List.exists (fun (_, b) -> b = a) !srvtab) then srvtab := !srvtab @ [(List.length !srvtab, a)]) ids;
              feed (OServers (List.map zi ids)) ("setservers " ^ csv)
+           | ["writefile"; _; hex] -> last_written := (try nameservers hex with _ -> [])
+           | ["reinit"] ->
+             (* ares_reinit re-reads the resolv.conf; a file without nameserver keeps the list *)
+             if nsrv0 = 0 && !last_written <> [] then begin
+               incr edits; incr n_edit; if !live > 0 then incr edits_inflight;
+               List.iter (fun a -> if not (List.exists (fun (_, b) -> b = a) !srvtab) then srvtab := !srvtab @ [(List.length !srvtab, a)]) !last_written;
+               feed (OServers (List.map zi !last_written)) "reinit"
+             end
            | _ -> ())
         | "REQ" :: t :: _ ->
           pending_user := true; incr sends; incr live;
